@@ -69,6 +69,9 @@ type Interp struct {
 	// Pure lists non-module functions without effects on their pointer arguments.
 	Pure  func(name string) bool
 	Steps int
+	// AtomDeps records, for every atom that abstracts joined values (loop-carried
+	// values, joins too large to keep as gated terms), the atoms those values mentioned.
+	AtomDeps map[string]map[string]bool
 	// OnStore, when set, is called for every store with a resolved pointer.
 	OnStore func(fr *Frame, site ssa.Instruction, ptr, val *Term)
 }
@@ -129,6 +132,51 @@ func defaultPure(name string) bool {
 		return true
 	}
 	return false
+}
+
+// noteDeps records that atom name abstracts the given values.
+func (in *Interp) noteDeps(name string, vs []*Term) {
+	if in.AtomDeps == nil {
+		in.AtomDeps = map[string]map[string]bool{}
+	}
+	d := in.AtomDeps[name]
+	if d == nil {
+		d = map[string]bool{}
+		in.AtomDeps[name] = d
+	}
+	for _, v := range vs {
+		Walk(v, func(t *Term) bool {
+			if t.Op == "slice" && Len(t).Key() == "0" {
+				return false // x[:0]: none of x's content is visible
+			}
+			if t.Op == "atom" && t.Name != name {
+				d[t.Name] = true
+			}
+			return true
+		})
+	}
+}
+
+// Deps returns every atom name t depends on, looking through abstracting atoms.
+func (in *Interp) Deps(t *Term) map[string]bool {
+	out := map[string]bool{}
+	var visit func(name string)
+	visit = func(name string) {
+		if out[name] {
+			return
+		}
+		out[name] = true
+		for d := range in.AtomDeps[name] {
+			visit(d)
+		}
+	}
+	Walk(t, func(x *Term) bool {
+		if x.Op == "atom" {
+			visit(x.Name)
+		}
+		return true
+	})
+	return out
 }
 
 func (in *Interp) warn(format string, args ...interface{}) {
@@ -680,6 +728,7 @@ func (fr *Frame) evalPass(m0 *Mem) {
 func (fr *Frame) joinVals(phi *ssa.Phi, vs, gs []*Term, header bool) *Term {
 	key := "phi#" + fr.ID + "#" + phi.Name()
 	if a := fr.sticky[key]; a != nil {
+		fr.in.noteDeps(key, vs)
 		return a
 	}
 	allEq := true
@@ -697,6 +746,7 @@ func (fr *Frame) joinVals(phi *ssa.Phi, vs, gs []*Term, header bool) *Term {
 	if header {
 		a := Atom(key, phi.Type())
 		fr.sticky[key] = a
+		fr.in.noteDeps(key, vs)
 		return a
 	}
 	res := vs[len(vs)-1]
@@ -704,6 +754,7 @@ func (fr *Frame) joinVals(phi *ssa.Phi, vs, gs []*Term, header bool) *Term {
 		res = Ite(gs[i], vs[i], res)
 	}
 	if len(res.Key()) > 4000 {
+		fr.in.noteDeps(key, []*Term{res})
 		return Atom(key, phi.Type())
 	}
 	return res
@@ -746,6 +797,7 @@ func (in *Interp) joinMems(fr *Frame, b int, mems []*Mem, gs []*Term, header boo
 		}
 		skey := fmt.Sprintf("mem#%s#%d#%s", fr.ID, b, k)
 		if a := fr.sticky[skey]; a != nil {
+			in.noteDeps(skey, vs)
 			out.put(c.obj, c.path, a)
 			continue
 		}
@@ -757,6 +809,7 @@ func (in *Interp) joinMems(fr *Frame, b int, mems []*Mem, gs []*Term, header boo
 		if header {
 			a := Atom(skey, typeAt(c.obj.T, c.path))
 			fr.sticky[skey] = a
+			in.noteDeps(skey, vs)
 			out.put(c.obj, c.path, a)
 			continue
 		}
@@ -765,6 +818,7 @@ func (in *Interp) joinMems(fr *Frame, b int, mems []*Mem, gs []*Term, header boo
 			res = Ite(gs[i], vs[i], res)
 		}
 		if len(res.Key()) > 4000 {
+			in.noteDeps(skey, []*Term{res})
 			res = Atom(skey, typeAt(c.obj.T, c.path))
 		}
 		out.put(c.obj, c.path, res)
